@@ -236,6 +236,8 @@ def rule_r5(ctx: Ctx) -> None:
                 return False
             if isinstance(e, ast.SetComp):
                 return reduced(e.elt)
+            if isinstance(e, ast.Set):
+                return all(reduced(x) for x in e.elts)
             if isinstance(e, ast.Call) and dotted(e.func) == "set" and len(e.args) == 1:
                 a = e.args[0]
                 if isinstance(a, ast.Call) and dotted(a.func) == "map" and isinstance(a.args[0], ast.Lambda):
